@@ -421,7 +421,7 @@ impl<'r, R: ReadValue> Fields<'r, R> {
     /// purposes.
     pub fn new(reader: &'r mut R, context: Option<&'static str>) -> Self {
         Self {
-            reader: LimitReader::new(reader, u64::MAX),
+            reader: LimitReader::top_level(reader),
             context,
             unconsumed_field: None,
             depth: 0,
@@ -459,9 +459,12 @@ impl<'r, R: ReadValue> Fields<'r, R> {
         let value = match wire_type {
             0 => self.reader.read_varint().map(FieldValue::Varint),
             1 => self.reader.read_i64().map(FieldValue::I64),
-            2 => self.reader.read_varint().map(|val| {
+            2 => self.reader.read_varint().and_then(|val| {
+                // The field must fit within the enclosing message (or the
+                // input, for a top-level message).
+                self.reader.check_has_bytes_u64(val)?;
                 len = val;
-                FieldValue::Len(val)
+                Ok(FieldValue::Len(val))
             }),
             3 => Ok(FieldValue::Sgroup),
             4 => Ok(FieldValue::Egroup),
